@@ -45,7 +45,9 @@ CONSTANTS
   Weak_SaveBeforeValidate,  \* SaveBlock(first) runs before the verification result is looked at
   Weak_NoRedo,              \* on failure: no RedoRequest, no StopPeerForError
   Weak_SeenCommitUnchecked, \* second.LastCommit is stored as seen commit after the early-exit check only
+  MaxRetry,                 \* model bound: firings of the 30 s request retry timer per behaviour
   MaxPending, PerPeer,      \* maxPendingRequests (600) and maxPendingRequestsPerPeer (20) of pool.go; the MC configs scale them down
+  Weak_AcceptsFromPreviousPeer, \* bpRequester.setBlock also takes a block from the peer asked BEFORE the last reset
   Weak_RedoAlwaysCountsPending, \* bpRequester.reset adds 1 to pool.numPending even when the requester held no block
   Weak_NilSlotAddressUnchecked, \* VerifySeenCommit compares the validator address of commit-flag slots only
   Weak_StaleMaxPeerHeight,  \* SetPeerRange never lowers maxPeerHeight
@@ -214,12 +216,16 @@ ValidateBlock(st, lastPows, b) ==
 
 \* ------------------------------------------------------------------ pool (pool.go)
 \* pool = [h, req, peers, maxH, np]
-\*   req   : [pool.h .. pool.h+n-1 -> [peer, blk]]         requesters
+\*   req   : [pool.h .. pool.h+n-1 -> [peer, blk, from, prev]]   requesters: peer = the ONE owner (the peer
+\*           currently asked, bpRequester.peerID); from = ghost, the peer that delivered blk; prev = the
+\*           peer asked before the last reset (exists only in the weakened code)
 \*   peers : [subset of Peers -> [base, height, to, np]]    to = didTimeout, np = bpPeer.numPending
 \*   np    : BlockPool.numPending -- the code's own count of requesters that have no block yet
 \*           (makeNextRequester +1, AddBlock -1, bpRequester.reset +1 iff a block is dropped);
 \*           makeRequestersRoutine creates no requester while np >= maxPendingRequests
-ReqEmpty == [peer |-> Nil, blk |-> NilBlk]
+ReqEmpty == [peer |-> Nil, blk |-> NilBlk, from |-> Nil, prev |-> Nil]
+\* bpRequester.reset (redo after removePeer, or the requestRetrySeconds timer): owner and block dropped
+ResetOf(r) == [ReqEmpty EXCEPT !.prev = IF Weak_AcceptsFromPreviousPeer THEN r.peer ELSE Nil]
 ReqHeights(pool) == DOMAIN pool.req
 MaxHeightOf(peers) ==
   IF DOMAIN peers = {} THEN 0
@@ -263,8 +269,10 @@ Pick(pool, h, p) == [pool EXCEPT !.req[h].peer = p, !.peers[p].np = @ + 1]     \
 AddBlock(pool, p, b) ==
   IF b.h \notin ReqHeights(pool)
   THEN [pool |-> pool, err |-> Abs(pool.h - b.h) > 100, set |-> FALSE]
-  ELSE IF pool.req[b.h].blk = NilBlk /\ pool.req[b.h].peer = p
-       THEN [pool |-> [pool EXCEPT !.req[b.h].blk = b, !.np = @ - 1,
+  \* bpRequester.setBlock: only from the peer the requester is asking right now
+  ELSE IF pool.req[b.h].blk = NilBlk
+          /\ (pool.req[b.h].peer = p \/ (Weak_AcceptsFromPreviousPeer /\ p # Nil /\ pool.req[b.h].prev = p))
+       THEN [pool |-> [pool EXCEPT !.req[b.h].blk = b, !.req[b.h].from = p, !.np = @ - 1,
                                    !.peers = IF p \in DOMAIN pool.peers      \* bpPeer.decrPending
                                              THEN [pool.peers EXCEPT ![p].np = @ - 1] ELSE pool.peers],
              err |-> FALSE, set |-> TRUE]
@@ -279,10 +287,17 @@ PoolRemove(pool, p) ==
   IN
   [pool EXCEPT
      !.np    = @ + Cardinality(again),
-     !.req   = [x \in ReqHeights(pool) |-> IF pool.req[x].peer = p THEN ReqEmpty ELSE pool.req[x]],
+     !.req   = [x \in ReqHeights(pool) |-> IF pool.req[x].peer = p THEN ResetOf(pool.req[x]) ELSE pool.req[x]],
      !.peers = peers2,
      !.maxH  = IF p \in DOMAIN pool.peers /\ pool.peers[p].height = pool.maxH
                THEN MaxHeightOf(peers2) ELSE pool.maxH]
+
+\* requestRoutine, `case <-to.C` (requestRetrySeconds = 30 s after the request was sent): reset and pick
+\* again.  The old peer is not told and its bpPeer.numPending is not given back; its answer may still come.
+CanRetry(pool, h) == h \in ReqHeights(pool) /\ pool.req[h].peer # Nil
+Retry(pool, h) ==
+  [pool EXCEPT !.req[h] = ResetOf(pool.req[h]),
+               !.np = IF pool.req[h].blk # NilBlk \/ Weak_RedoAlwaysCountsPending THEN @ + 1 ELSE @]
 
 \* PopRequest
 PopRequest(pool) ==
@@ -296,9 +311,12 @@ IsCaughtUp(pool) ==
 \* the counters the code keeps are what they claim to count
 Blockless(pool) == {x \in ReqHeights(pool) : pool.req[x].blk = NilBlk}
 PendingExact(pool) == pool.np = Cardinality(Blockless(pool))
+\* (a requester that gave up on a peer -- Retry -- leaves the peer's counter where it was: >=)
 PeerPendingExact(pool) ==
   \A p \in DOMAIN pool.peers :
-     pool.peers[p].np = Cardinality({x \in Blockless(pool) : pool.req[x].peer = p})
+     pool.peers[p].np >= Cardinality({x \in Blockless(pool) : pool.req[x].peer = p})
+\* a block sits in a requester only if the peer the requester is asking delivered it
+BlockFromAsked(pool) == \A x \in ReqHeights(pool) : pool.req[x].blk # NilBlk => pool.req[x].from = pool.req[x].peer
 
 \* PeekTwoBlocks
 HasTwo(pool) ==
@@ -316,6 +334,8 @@ SyncAccepts(st, pows, lastPows, first, second) ==
 
 \* peers the failure path stops: RedoRequest(first.Height), RedoRequest(second.Height)
 FailPeers(pool) == {pool.req[pool.h].peer, pool.req[pool.h + 1].peer} \ {Nil}
+\* the peers that SENT the two blocks
+PairSenders(pool) == {pool.req[pool.h].from, pool.req[pool.h + 1].from} \ {Nil}
 RECURSIVE PoolRemoveAll(_, _)
 PoolRemoveAll(pool, S) ==
   IF S = {} THEN pool ELSE LET p == CHOOSE x \in S : TRUE IN PoolRemoveAll(PoolRemove(pool, p), S \ {p})
